@@ -4,7 +4,10 @@ import (
 	"bytes"
 	"crypto/elliptic"
 	"fmt"
+	"sort"
 	"strings"
+
+	"github.com/cloudflare/pat-go/tokens/type3"
 
 	"verif/internal/core"
 	"verif/internal/entropy"
@@ -283,6 +286,7 @@ func (c c06) Execute(p *core.Plan) *core.Result {
 	if !w.Net.Run() {
 		res.Infra = "step budget exhausted"
 	}
+	c.structFamily(w, res, lastSide)
 	res.Sample = map[string]any{"faults": faultSteps(p), "verify_request_calls": res.Evals, "cache_puts": w.Cache.Puts, "clients_cached": len(w.Cache.M)}
 	finish(w, res)
 	return res
@@ -318,4 +322,82 @@ func byzBuild6(w *world.World, cls int, origin string, seed int64) (wire, secret
 	// byzBuild derives the same secret and blind from the same seed
 	wire, err = byzBuild(w, cls, origin, seed)
 	return wire, secret, blind, err
+}
+
+// structFamily: an attester front-end that decoded a request, encoded it once (to log or
+// forward it) and then holds a request object whose fields differ from what was encoded —
+// the request's "exact contents" are its fields. Each variant alters one signed field of the
+// object after Marshal() was called; the reference verdict is computed from the fields.
+func (c c06) structFamily(w *world.World, res *core.Result, sides map[int][][]byte) {
+	var ids []int
+	for id := range sides {
+		ids = append(ids, id)
+	}
+	sort.Ints(ids)
+	var prevCT []byte
+	for _, id := range ids {
+		s := w.Sessions[id]
+		if s == nil || s.St3 == nil || len(sides[id]) != 3 {
+			continue
+		}
+		side := sides[id]
+		type tamper struct {
+			label string
+			apply func(r *type3.RateLimitedTokenRequest)
+		}
+		flip := func(b []byte, bit int) []byte {
+			c := append([]byte(nil), b...)
+			c[(bit/8)%len(c)] ^= 1 << uint(bit%8)
+			return c
+		}
+		ts := []tamper{
+			{"struct/none", func(r *type3.RateLimitedTokenRequest) {}},
+			{"struct/name-key-id-bit", func(r *type3.RateLimitedTokenRequest) { r.NameKeyID = flip(r.NameKeyID, 5) }},
+			{"struct/ciphertext-bit", func(r *type3.RateLimitedTokenRequest) { r.EncryptedTokenRequest = flip(r.EncryptedTokenRequest, 77) }},
+			{"struct/ciphertext-truncated", func(r *type3.RateLimitedTokenRequest) {
+				r.EncryptedTokenRequest = append([]byte(nil), r.EncryptedTokenRequest[:len(r.EncryptedTokenRequest)-1]...)
+			}},
+			{"struct/signature-bit", func(r *type3.RateLimitedTokenRequest) { r.Signature = flip(r.Signature, 300) }},
+		}
+		if prevCT != nil {
+			pc := prevCT
+			ts = append(ts, tamper{"struct/ciphertext-of-other-request", func(r *type3.RateLimitedTokenRequest) { r.EncryptedTokenRequest = append([]byte(nil), pc...) }})
+		}
+		for ti, t := range ts {
+			req := new(type3.RateLimitedTokenRequest)
+			if !req.Unmarshal(append([]byte(nil), s.ReqBytes...)) {
+				continue
+			}
+			req.Marshal() // encoded once (forwarded / logged)
+			t.apply(req)
+			// the request's exact contents, encoded by the harness from its fields
+			wire := []byte{0, 3}
+			wire = append(wire, req.RequestKey...)
+			wire = append(wire, req.NameKeyID...)
+			wire = append(wire, byte(len(req.EncryptedTokenRequest)>>8), byte(len(req.EncryptedTokenRequest)))
+			wire = append(wire, req.EncryptedTokenRequest...)
+			want := len(req.Signature) == 96 && ref.VerifyP384Raw(req.RequestKey, wire, req.Signature)
+			fpBefore := w.Cache.Fingerprint()
+			o := &world.Outcome{}
+			var err error
+			w.Ent.Begin("attester", fmt.Sprintf("struct/%d/%d", id, ti))
+			w.Guard(o, func() { err = w.Attester.VerifyRequest(*req, side[0], side[1], side[2]) })
+			res.Evals++
+			res.Nontrivial(t.label)
+			if o.Panic != nil {
+				res.Probe("attester panicked on a tampered request object (C03's business)")
+				continue
+			}
+			if err == nil && !want {
+				res.Violate("C06/accepted-unauthentic/"+t.label, fmt.Sprintf("VerifyRequest accepted a request object whose contents (variant %s, altered after the object had been encoded once) do not carry a valid signature", t.label), -1)
+			}
+			if err != nil && want {
+				res.Violate("C06/rejected-authentic/"+t.label, fmt.Sprintf("VerifyRequest refused an authentic request object (%s): %v", t.label, err), -1)
+			}
+			if err != nil && w.Cache.Fingerprint() != fpBefore {
+				res.Violate("C06/rejected-request-altered-state/"+t.label, "a refused request object changed cached client state", -1)
+			}
+		}
+		prevCT = s.St3.Request().EncryptedTokenRequest
+	}
 }
